@@ -201,6 +201,14 @@ func checkC16(c Node) Verdict {
 		if len(out.Rows) != 1 || !Equal(out.Rows[0], map[string]any{"a": arg1}) {
 			return fail("echo", desc, sig, "%q returns %s", got, Canon(any(out.Rows)))
 		}
+	case 14:
+		if len(out.Rows) != 1 || !Equal(out.Rows[0], map[string]any{"a": arg1, "b": float64(7), "c": arg1}) {
+			return fail("echo", desc, sig, "%q returns %s", got, Canon(any(out.Rows)))
+		}
+	case 15:
+		if len(out.Rows) != 1 || !Equal(out.Rows[0], map[string]any{"a": arg1, "b": float64(7), "c": float64(7), "d": arg1}) {
+			return fail("echo", desc, sig, "%q returns %s", got, Canon(any(out.Rows)))
+		}
 	case 5:
 		if len(out.Rows) != 1 || !Equal(out.Rows[0], map[string]any{"a": arg1, "b": float64(7)}) {
 			return fail("echo", desc, sig, "%q returns %s", got, Canon(any(out.Rows)))
